@@ -133,8 +133,8 @@ structure Stored where
 
 /-- What can be left under the key.
     The store goes wrong in two ways: a read fault — the writer calls `cancel()` (the command is killed asynchronously)
-    and returns, and its deferred `tw.Close()` / `w.Close()` then FINISH the archive: end marker (unless the writer is
-    stuck on a short body) and end-of-input — or the command fails by itself (`cmdFailed`: it stops reading, exits
+    and returns; the pipe is closed (end-of-input), and IF `tw.Close()` is deferred (`finishOnError`) the archive is
+    FINISHED first: end marker (unless the writer is stuck on a short body) — or the command fails by itself (`cmdFailed`: it stops reading, exits
     non-zero).
     * `naive`: whatever got through stays: `arrived` tokens of the stream, the last possibly cut (`cutLast`), and the
       end marker if it got through as well (`markerArrived`; only possible behind the complete stream);
@@ -143,10 +143,11 @@ structure Stored where
       writer had produced — an archive that stops at the failed output.
     (Observed on the pinned tree: for a commit-on-success command the kill wins on an idle machine and loses now and
     then under load; `cat > $KEY` receives the finished archive every time once the data exceeds the pipe buffer.) -/
-def cmdStored (k : CmdKind) (outs : List (List Src)) (cmdFailed : Bool) (arrived : Nat) (cutLast markerArrived : Bool)
-    (killWon : Bool) : Option Stored :=
+def cmdStored (finishOnError : Bool) (k : CmdKind) (outs : List (List Src)) (cmdFailed : Bool) (arrived : Nat)
+    (cutLast markerArrived : Bool) (killWon : Bool) : Option Stored :=
   let r := cmdWrite ⟨[], false⟩ outs
-  let finished : Stored := ⟨r.1.toks, !r.1.broken⟩
+  -- `finishOnError`: regenerated fact "tar's Close is deferred", i.e. the end marker is written even after a read fault
+  let finished : Stored := ⟨r.1.toks, !r.1.broken && (finishOnError || !r.2)⟩
   if r.2 || cmdFailed then
     match k with
     | .atomic => if cmdFailed || killWon then none else some finished
@@ -156,7 +157,7 @@ def cmdStored (k : CmdKind) (outs : List (List Src)) (cmdFailed : Bool) (arrived
         some ⟨(match ts.reverse with
           | [] => []
           | t :: rest => (⟨t.ent, false⟩ :: rest).reverse), false⟩
-      else some ⟨ts, markerArrived && decide (r.1.toks.length ≤ arrived) && !r.1.broken⟩
+      else some ⟨ts, markerArrived && decide (r.1.toks.length ≤ arrived) && finished.marker⟩
   else some finished
 
 /-- `Retrieve`: `tarOk && commandExitedZero`, where the tar reader needs the end marker (see the header). -/
